@@ -14,6 +14,7 @@ HYPOTHESES = []
 NOT_YET_PROVED = []
 ASSUMPTIONS = []
 nontrivial = nontrivial_default
+EXTRA_MODULES = {"Props.TieCodec": "PyEcc.Tie."}
 CHUNK = 8
 P = O.BLS_P
 
